@@ -310,6 +310,8 @@ class NP:
         self.float64 = TypeMarker("float64")
         self.int32 = TypeMarker("int32")
         self.int64 = TypeMarker("int64")
+        self.intp = TypeMarker("intp")
+        self.float32 = TypeMarker("float32")
         self.integer = TypeMarker("integer")       # np.integer: NumPy integer scalars (Python ints are not instances)
         self.Array = TypeMarker("daarray")      # dask.array.Array
         self.AxisError = TypeMarker("AxisError")
@@ -729,6 +731,17 @@ class NP:
         used("np.transpose")
         x = lift(x)
         return x.transpose(*(axes or ()))
+
+    def moveaxis(self, x, source, destination):
+        used("np.moveaxis")
+        x = lift(x)
+        if not isinstance(source, int) or not isinstance(destination, int):
+            raise ModelError("np.moveaxis with several axes")
+        n = x.ndim
+        src, dst = source % n, destination % n
+        order = [i for i in range(n) if i != src]
+        order.insert(dst, src)
+        return x.transpose(*order)
 
     def swapaxes(self, x, a, b):
         used("np.swapaxes")
